@@ -106,6 +106,40 @@ pub const TEXT_MUTATIONS: [&str; 16] = [
 const FOREIGN: [char; 14] = ['+', '/', '=', ' ', '\n', '\t', '\0', 'é', '.', ':', '~', '*', '\r', ','];
 const ALPHA: &[u8] = b"ABCDEFGHIJKLMNOPQRSTUVWXYZabcdefghijklmnopqrstuvwxyz0123456789-_";
 
+/// Replacement / insertion of multi-byte characters (2, 3 and 4 UTF-8 bytes) and of a few ASCII
+/// characters at every character position of the first 12 characters (the region where the parser
+/// looks for the prefix with byte offsets), and multi-byte characters at every 7th position of the
+/// rest, for the prefixed and the prefix-less text of one record.
+pub fn head_edits() -> Vec<TextCase> {
+    let e = det_entropy("c12/base", 2, 2000);
+    let base = gen_case(&mut Choices::new(&e), Some("valid")).s;
+    let mut out = Vec::new();
+    for text in [base.clone(), base[4..].to_string()] {
+        let chars: Vec<char> = text.chars().collect();
+        let positions: Vec<usize> = (0..chars.len().min(12)).chain((12..chars.len()).step_by(7)).chain([chars.len() - 1]).collect();
+        for pos in positions {
+            for ch in ['é', '€', '𝄞', '\u{80}', ':', 'e', ' '] {
+                if pos >= 12 && ch.len_utf8() == 1 {
+                    continue;
+                }
+                let mut a = chars.clone();
+                a[pos] = ch;
+                let mut b = chars.clone();
+                b.insert(pos, ch);
+                out.push(TextCase { s: a.into_iter().collect(), label: "head-edit".into() });
+                out.push(TextCase { s: b.into_iter().collect(), label: "head-edit".into() });
+            }
+        }
+        let mut t = text.clone();
+        t.push('€');
+        out.push(TextCase { s: t, label: "head-edit".into() });
+    }
+    for s in ["é", "€", "𝄞", "en€", "enr€", "enré", "e𝄞", "€€", "enr:€", "enr:é", "abé", "ab€x", "a𝄞"] {
+        out.push(TextCase { s: s.to_string(), label: "head-edit".into() });
+    }
+    out
+}
+
 fn gen_case(c: &mut Choices, forced: Option<&'static str>) -> TextCase {
     let which: &'static str = forced.unwrap_or_else(|| *c.pick(&TEXT_MUTATIONS[..]));
     let d = wire::gen_valid_draft(c);
@@ -289,7 +323,7 @@ impl Property for C12 {
                 ]
             })
         });
-        let texts = texts.chain(edits);
+        let texts = texts.chain(edits).chain(head_edits().into_iter().map(Case::Text));
         let fams = if quick { vec![crate::keys::FamId::Tiny, crate::keys::FamId::Wide] } else { crate::keys::ALL_FAMS.to_vec() };
         let hists = fams.into_iter().flat_map(|f| crate::gen::history::exhaustive(f, 1)).map(Case::Hist);
         let shapes = crate::sigshapes::corpus().iter().map(|r| {
